@@ -5613,6 +5613,9 @@ class CodegenCtx:
         elif isinstance(action, SetTo):
             target = action.into_storage
             value = self._generate_code_for_int_expr(action.value_expr, ctx, target)
+            if target.holds_a(OutputStorageType.INT):
+                # explicit conversion to the declared width (an out of range constant is otherwise a -Wconstant-conversion warning)
+                value = f"({self._integer_containing(signed=target.int_signed, width=target.int_width)})({value})"
             result.add(f"state->c.{target.name} = {value};")
         elif isinstance(action, SetToStr):
             assert action.into_storage.holds_a(OutputStorageType.STR)
